@@ -201,7 +201,8 @@ def run_family(run, prop, tier, seed, family):
     n2 = report(run, prop, mg, None, pres, 'path')
     run.add('paths_replayed', n2)
     run.add('path_steps', sum(x.get('steps', 0) for x in pres))
-    if prop in ENV_PROPS and family in ENV_FAMILIES:
+    if prop in ENV_PROPS and family in ENV_FAMILIES and (thorough or not run.cov.get('ascii_locale_child_ragged')):
+        # (quick tier: once per check run - the first family of the Array side and of the ragged side)
         # the same paths in an interpreter whose default text encoding is ASCII (LC_ALL=C without UTF-8 mode):
         # nothing Darr writes or reads may depend on the locale of the process
         sub = paths[:(400 if thorough else 48)]
@@ -213,7 +214,7 @@ def run_family(run, prop, tier, seed, family):
                 x['mism'][pp] = [('locale=C:' + str(mm[0]),) + tuple(mm[1:]) for mm in x['mism'][pp]]
         n3 = report(run, prop, mg, None, eres, 'path')
         run.add('paths_replayed_under_ascii_locale', n3)
-        run.cov['ascii_locale_child'] = info
+        run.cov['ascii_locale_child_ragged'] = info
     run.add('traces_validated_against_impl', n1 + n2)
     run.add('configurations', len({tuple(sorted((k, str(v)) for k, v in x['cfg'].items())) for x in res if 'cfg' in x}))
     for x in res[:2]:
